@@ -394,6 +394,38 @@ func analyse(f *ssa.Function, sums map[*ssa.Function]*summary, mine map[*ssa.Pac
 						}
 						continue
 					}
+					// a call through an interface value: every method of the library with that name whose receiver type
+					// implements the interface may be the callee (class-hierarchy resolution); the union of their
+					// summaries applies, the receiver being the interface value
+					if c.IsInvoke() {
+						if it, ok := c.Value.Type().Underlying().(*types.Interface); ok {
+							cands := []*ssa.Function{}
+							for g := range sums {
+								recv := g.Signature.Recv()
+								if recv == nil || g.Name() != c.Method.Name() {
+									continue
+								}
+								if types.Implements(recv.Type(), it) {
+									cands = append(cands, g)
+								}
+							}
+							for _, g := range cands {
+								cs := sums[g]
+								for i := range cs.params {
+									switch {
+									case i == 0:
+										write(originsOf(c.Value, 0))
+									case i == 1000:
+									case i-1 < len(args):
+										write(originsOf(args[i-1], 0))
+									}
+								}
+								for gl := range cs.globals {
+									s.globals[gl] = true
+								}
+							}
+						}
+					}
 					// unknown or external callee
 					vals := append([]ssa.Value{}, args...)
 					if c.IsInvoke() {
